@@ -179,6 +179,49 @@ pub fn run(ctx: &mut Ctx) {
         if len < 1100 || len % 4 == 0 { let t: String = format!("{}{}", "Ab1 ".repeat(len / 4), &"xyz"[..len % 4]); oracle_one(ctx, &t); }
     }
     ctx.exhaustive.push("every byte length 17..1099, 65520..65559 and 16777200..16777239 of printable ASCII must be refused as too long by all five constructors".to_string());
+    // ---- copies of a value are the value: clone(), clone_from() over a slot that held a longer / shorter / equal
+    //      text, Vec::clone_from, mem::replace; afterwards text, equality, ordering and hash must be those of a
+    //      freshly constructed string with the same text (a copy that keeps bytes of the overwritten value would
+    //      compare, order and hash differently)
+    {
+        let mut rng = ctx.rng("copies");
+        let h = |x: &NormalizedString| { let mut d = DefaultHasher::new(); x.hash(&mut d); d.finish() };
+        let n = if ctx.quick() { 4000 } else { 200_000 };
+        for k in 0..n {
+            let (la, lb) = (rng.range(1, 16) as usize, rng.range(1, 16) as usize);
+            let mk = |rng: &mut Rng, l: usize| -> String { (0..l).map(|_| if rng.chance(1, 6) { ' ' } else { rand_char(rng, 0) }).collect() };
+            let (sa, sb) = (mk(&mut rng, la), mk(&mut rng, lb));
+            let (a, b) = match (NormalizedString::new(&sa), NormalizedString::new(&sb)) { (Ok(a), Ok(b)) => (a, b), _ => continue };
+            ctx.oracle_runs += 1;
+            let r = catch(|| {
+                let fresh_b = NormalizedString::new(b.as_ref()).unwrap();
+                let c1 = b.clone();
+                let mut c2 = a.clone(); c2.clone_from(&b);                       // slot held `a` (any length relation to b)
+                let mut v = vec![a.clone(), a.clone(), a.clone()]; v.clone_from(&vec![b.clone(), b.clone()]);
+                let mut c3 = a.clone(); let _old = std::mem::replace(&mut c3, b.clone());
+                let mut o = Some(a.clone()); o.clone_from(&Some(b.clone()));
+                let copies = vec![c1, c2, v[0].clone(), v[1].clone(), c3, o.unwrap()];
+                let probe = NormalizedString::new(format!("{}A", b.as_ref()).chars().take(16).collect::<String>()).ok();
+                copies.iter().enumerate().filter_map(|(i, c)| {
+                    let mut what = Vec::new();
+                    if c.as_ref() != fresh_b.as_ref() || c.to_string() != fresh_b.to_string() { what.push("text"); }
+                    if *c != fresh_b || fresh_b != *c { what.push("equality"); }
+                    if c.cmp(&fresh_b) != std::cmp::Ordering::Equal { what.push("ordering"); }
+                    if h(c) != h(&fresh_b) { what.push("hash"); }
+                    if let Some(p) = &probe { if c.cmp(p) != fresh_b.cmp(p) || a.cmp(c) != a.cmp(&fresh_b) { what.push("ordering against other values"); } }
+                    if what.is_empty() { None } else { Some((i, what.join(", "))) }
+                }).collect::<Vec<_>>()
+            });
+            let names = ["clone()", "clone_from() over a previous value", "Vec::clone_from element 0", "Vec::clone_from element 1", "mem::replace", "Option::clone_from"];
+            match r {
+                None => ctx.fail("panic", format!("{{\"what\":\"copying a value panicked\",\"previous\":{},\"source\":{}}}", jstr(&sa), jstr(&sb))),
+                Some(bad) => for (i, what) in bad {
+                    ctx.fail("copy_is_the_value", format!("{{\"what\":\"a copy made by {} differs from a freshly constructed string with the same text in: {}\",\"slot_held_before\":{},\"copied_value\":{}}}", names[i], what, jstr(&sa), jstr(&sb)));
+                }
+            }
+            if k % 1000 == 0 { ctx.count("oracle_copies_batches"); }
+        }
+    }
     let mut rng = ctx.rng("oracle");
     let n = if ctx.quick() { 200_000 } else { 15_000_000 };
     for k in 0..n {
